@@ -1,16 +1,20 @@
 package main
 
 import (
+	"bytes"
 	"encoding/json"
 	"fmt"
 	"go/format"
 	"go/parser"
 	"go/token"
+	"math/rand"
 	"os"
 	"regexp"
 	"strings"
 
+	"github.com/dave/dst"
 	"github.com/dave/dst/decorator"
+	"github.com/dave/dst/decorator/resolver/guess"
 )
 
 // C03 on the implementation: any parseable source, whatever its formatting: decorate + print
@@ -19,6 +23,39 @@ import (
 type c03Input struct {
 	Src     string `json:"src"`
 	Variant string `json:"variant"`
+	Managed bool   `json:"managed,omitempty"` // decorate with the goast identifier resolver, print with import management (accurate package names)
+}
+
+var selGapRe = regexp.MustCompile(`\b([a-z][A-Za-z0-9]*)\.([A-Z][A-Za-z0-9]*)`)
+
+// selGaps: comments and line breaks in the gaps of qualified identifiers (before, after the
+// period -- same line, end of line, own line --, after the name)
+func selGaps(r *rand.Rand, src string) string {
+	var out []string
+	n := 0
+	for _, l := range strings.Split(src, "\n") {
+		if !strings.ContainsAny(l, "\"`'") && !strings.Contains(l, "//") && !strings.Contains(l, "/*") && !strings.HasPrefix(strings.TrimSpace(l), "import") && r.Intn(3) == 0 {
+			l = selGapRe.ReplaceAllStringFunc(l, func(m string) string {
+				sm := selGapRe.FindStringSubmatch(m)
+				n++
+				switch r.Intn(6) {
+				case 0:
+					return fmt.Sprintf("%s. /*g%d*/ %s", sm[1], n, sm[2])
+				case 1:
+					return fmt.Sprintf("%s. // g%d\n\t\t%s", sm[1], n, sm[2])
+				case 2:
+					return fmt.Sprintf("%s.\n\t\t// g%d\n\t\t%s", sm[1], n, sm[2])
+				case 3:
+					return fmt.Sprintf("/*g%d*/ %s.%s /*h%d*/", n, sm[1], sm[2], n)
+				case 4:
+					return fmt.Sprintf("%s /*g%d*/ .%s", sm[1], n, sm[2])
+				}
+				return fmt.Sprintf("%s. // g%d\n\n\t\t%s", sm[1], n, sm[2])
+			})
+		}
+		out = append(out, l)
+	}
+	return strings.Join(out, "\n")
 }
 
 func c03Variant(c *Ctx, src, variant string) string {
@@ -31,6 +68,8 @@ func c03Variant(c *Ctx, src, variant string) string {
 		return strings.ReplaceAll(src, "\t", "    ")
 	case "mangled":
 		return mangle(c.Rng, src)
+	case "selgaps":
+		return selGaps(c.Rng, src)
 	case "blank3":
 		return strings.ReplaceAll(src, "\n\n", "\n\n\n")
 	case "dense":
@@ -61,11 +100,11 @@ func c03Check(in c03Input) (key, what string) {
 	if key == "" || !strings.Contains(in.Src, "\r\n") || strings.HasPrefix(key, "crlf-") {
 		return
 	}
-	lf := c03Input{Src: strings.ReplaceAll(in.Src, "\r\n", "\n"), Variant: in.Variant}
+	lf := c03Input{Src: strings.ReplaceAll(in.Src, "\r\n", "\n"), Variant: in.Variant, Managed: in.Managed}
 	if k2, _ := c03CheckRaw(lf); k2 == "" {
 		// the recorded defect is about BLANK lines (the decorator peeks one byte ahead and does not see
 		// "\r\n\r\n"): with the empty lines -- and only those -- ended by a bare "\n" it must pass
-		mixed := c03Input{Src: crlfEmptyLine.ReplaceAllString(in.Src, "\n"), Variant: in.Variant}
+		mixed := c03Input{Src: crlfEmptyLine.ReplaceAllString(in.Src, "\n"), Variant: in.Variant, Managed: in.Managed}
 		if k3, w3 := c03CheckRaw(mixed); k3 != "" {
 			return "c03-crlf", "CRLF only, and not through blank lines (fails with LF-terminated empty lines too): " + w3
 		}
@@ -76,6 +115,25 @@ func c03Check(in c03Input) (key, what string) {
 
 var crlfEmptyLine = regexp.MustCompile(`(?m)^\r\n`)
 
+// sameImports: the two sources import the same (name, path) pairs in the same order
+func sameImports(a, b string) bool {
+	imps := func(src string) string {
+		f, err := parser.ParseFile(token.NewFileSet(), "", src, parser.ImportsOnly)
+		if err != nil {
+			return "?"
+		}
+		var sb strings.Builder
+		for _, is := range f.Imports {
+			if is.Name != nil {
+				sb.WriteString(is.Name.Name)
+			}
+			sb.WriteString(" " + is.Path.Value + ";")
+		}
+		return sb.String()
+	}
+	return imps(a) == imps(b)
+}
+
 func c03CheckRaw(in c03Input) (key, what string) {
 	if _, err := parser.ParseFile(token.NewFileSet(), "", in.Src, parser.ParseComments); err != nil {
 		return "", ""
@@ -84,11 +142,36 @@ func c03CheckRaw(in c03Input) (key, what string) {
 	if err != nil {
 		return "", ""
 	}
-	f, err := decorator.Parse(in.Src)
-	if err != nil {
-		return "c03-error", "Parse failed on a parseable file: " + err.Error()
+	var f *dst.File
+	var out string
+	var perr error
+	var pm string
+	if in.Managed {
+		// import management on: qualified identifiers collapse and expand again; only files whose imports
+		// the restorer leaves alone (every import used, no path twice, nothing goast refuses)
+		dec := decorator.NewDecoratorWithImports(token.NewFileSet(), "example.com/self", goastNew())
+		var derr error
+		if pmd := safely(func() { f, derr = dec.Parse(in.Src) }); pmd != "" {
+			return "c03-panic", "decorating with the goast resolver panicked: " + pmd
+		}
+		if derr != nil {
+			return "", ""
+		}
+		var buf bytes.Buffer
+		pm = safely(func() {
+			perr = decorator.NewRestorerWithImports("example.com/self", guess.WithMap(accurateNames(in.Src))).Fprint(&buf, f)
+		})
+		out = buf.String()
+		if pm == "" && perr == nil && !sameImports(in.Src, out) {
+			return "", "" // the import manager changed the import declarations (an unused or twice-imported path): C07's business
+		}
+	} else {
+		f, err = decorator.Parse(in.Src)
+		if err != nil {
+			return "c03-error", "Parse failed on a parseable file: " + err.Error()
+		}
+		out, perr, pm = printDst(f)
 	}
-	out, perr, pm := printDst(f)
 	if pm != "" {
 		return "c03-panic", "printing panicked: " + pm
 	}
@@ -101,6 +184,23 @@ func c03CheckRaw(in c03Input) (key, what string) {
 	wt, _, _ := scanAllOpt(string(want), true)
 	ot, ocs, _ := scanAllOpt(out, true)
 	_, ics, _ := scanAll(in.Src)
+	if tokString(wt) != tokString(ot) && importOrderOnly(wt, ot) {
+		// go/format has two paths: format.Source sorts the imports of the parsed file in place;
+		// format.Node (what dst's Fprint calls, on an AST with synthetic positions) first prints and
+		// re-parses when imports are unsorted, and that first print may move a comment inside an
+		// import spec and add a blank line, which splits the sorting run.  The same pristine AST
+		// through format.Node is the reference for the order of import specs.
+		fs2 := token.NewFileSet()
+		if af2, err := parser.ParseFile(fs2, "", in.Src, parser.ParseComments); err == nil {
+			var nb bytes.Buffer
+			if err := format.Node(&nb, fs2, af2); err == nil {
+				if nt, _, _ := scanAllOpt(nb.String(), true); tokString(nt) == tokString(ot) {
+					wt = nt
+					want = nb.Bytes()
+				}
+			}
+		}
+	}
 	if tokString(wt) != tokString(ot) {
 		k := "c03-tokens"
 		if importOrderOnly(wt, ot) && strings.Contains(in.Src, "\r\n") {
@@ -301,7 +401,8 @@ func c03Prop(c *Ctx) {
 			srcs = append(srcs, string(b))
 		}
 	}
-	variants := []string{"asis", "crlf", "bom", "spaces", "mangled", "blank3", "dense"}
+	variants := []string{"asis", "crlf", "bom", "spaces", "mangled", "blank3", "dense", "selgaps"}
+	srcs = append(srcs, c08Sources...)
 	for _, src := range srcs {
 		for _, v := range variants {
 			in := c03Input{Src: c03Variant(c, src, v), Variant: v}
@@ -310,6 +411,33 @@ func c03Prop(c *Ctx) {
 			c.Res.hist("c03-variant", v)
 			if key, what := c03Check(in); key != "" {
 				in.Src = clipKeep(in.Src)
+				c.Res.fail(key, what, in)
+			}
+			// the same text through the import-managing pair (files with imports; three variants)
+			if (v == "asis" || v == "selgaps" || v == "mangled") && strings.Contains(src, "import") {
+				in.Managed = true
+				c.Res.Evaluations++
+				c.Res.seen(fmt.Sprint(len(src), v, "managed", src[:min(50, len(src))]))
+				c.Res.hist("c03-variant", v+"+import-management")
+				if key, what := c03Check(in); key != "" {
+					in.Src = clipKeep(in.Src)
+					c.Res.fail(key, what, in)
+				}
+			}
+		}
+	}
+	// a comment, a line comment, a line break, a blank line in every k-th gap between two tokens of
+	// the hand corpus (all gaps in the thorough tier)
+	for si, src := range append(append([]string{}, sinkSources...), c08Sources...) {
+		every := 4
+		if c.Tier == "thorough" {
+			every = 1
+		}
+		for _, v := range gapSweep(src, every, si+int(c.Seed)) {
+			in := c03Input{Src: v, Variant: "gap-sweep"}
+			c.Res.Evaluations++
+			c.Res.hist("c03-variant", "gap-sweep")
+			if key, what := c03Check(in); key != "" {
 				c.Res.fail(key, what, in)
 			}
 		}
